@@ -1277,10 +1277,14 @@ fn check_spec_reserved_keys(key: &[u8], mut value: &[u8]) -> Result<(), Error> {
             Ipv6Addr::decode(&mut value)?;
         }
         b"secp256k1" => {
+            // the value is an RLP byte string holding a secp256k1 public key (not a record)
+            let pubkey_bytes = Bytes::decode(&mut value)?;
             #[cfg(all(feature = "k256", not(feature = "rust-secp256k1")))]
-            <Enr<k256::ecdsa::SigningKey>>::decode(&mut value)?;
+            <k256::ecdsa::SigningKey as EnrKeyUnambiguous>::decode_public(&pubkey_bytes)?;
             #[cfg(feature = "rust-secp256k1")]
-            <Enr<secp256k1::SecretKey>>::decode(&mut value)?;
+            <secp256k1::SecretKey as EnrKeyUnambiguous>::decode_public(&pubkey_bytes)?;
+            #[cfg(not(any(feature = "k256", feature = "rust-secp256k1")))]
+            let _ = pubkey_bytes;
         }
         _ => return Ok(()),
     };
